@@ -149,7 +149,11 @@ struct Ctx<'a> { rep: &'a mut Report, ops: &'a mut Vec<String>, imp: &'a mut Vec
 impl<'a> Ctx<'a> {
     fn fail(&mut self, class: &str, detail: &str) {
         let s = self.script.clone();
-        self.rep.spec_fail(class, json!({"case_seed": self.seed, "backend": self.backend, "script": s}), detail);
+        // gap predicate of a recorded finding: on the database backend secret rows are unique by secret identifier
+        // account-wide, so importing a COPY of a folder (same secret ids under a new folder id) takes the rows away from
+        // the original folder; everything observed afterwards in such a case is attributed to that finding
+        let class = if self.backend == "db" && s.iter().any(|l| l.starts_with("import-copy")) { format!("{class}-after-a-folder-copy-was-imported-db") } else { class.to_string() };
+        self.rep.spec_fail(&class, json!({"case_seed": self.seed, "backend": self.backend, "script": s}), detail);
     }
 }
 
@@ -228,7 +232,7 @@ async fn check_views(cx: &mut Ctx<'_>, a: &mut LocalAccount, live: &BTreeMap<Vau
     // a secret lives in exactly one folder
     let mut seen: BTreeMap<SecretId, usize> = BTreeMap::new();
     for (_, m) in live { for k in m.keys() { *seen.entry(*k).or_insert(0) += 1; } }
-    if seen.values().any(|n| *n > 1) { cx.fail("c01-harness-bookkeeping", "secret recorded in two folders"); }
+    if seen.values().any(|n| *n > 1) && !cx.script.iter().any(|l| l.starts_with("import-copy")) { cx.fail("c01-harness-bookkeeping", "secret recorded in two folders"); }
 }
 
 /// C20: index documents equal an index rebuilt from the folders
@@ -422,6 +426,63 @@ pub async fn run_case(backend: &str, seed: u64, rep: &mut Report, ops: &mut Vec<
         // with a saved log waiting, make sure something is created before it is forced back
         let kind = if !two && folder == default && saved.is_some() && !created_since_save && !force_now && rng.chance(1, 2) { 20 } else { kind };
         let save_now = !two && folder == default && saved.is_none() && !in_folder.is_empty() && kind < 14;
+        if !special_done && special >= 25 && special < 37 && !two && !extra_folders.is_empty() {
+            // export a folder under a new password and import the buffer again, four ways
+            let with_docs: Vec<VaultId> = extra_folders.iter().copied().filter(|f| live.get(f).map(|m| !m.is_empty()).unwrap_or(false)).collect();
+            let f = if with_docs.is_empty() { *rng.pick(&extra_folders) } else { *rng.pick(&with_docs) };
+            let new_key: AccessKey = secrecy::SecretString::from(format!("exported folder password {}", rng.below(1_000_000))).into();
+            match a.export_folder_buffer(&f, new_key.clone(), false).await {
+                Err(e) => { cx.script.push(format!("export_folder {f} -> error {e}")); cx.rep.count("op:export-folder-error"); }
+                Ok(buffer) => {
+                    let at_export = live.get(&f).cloned().unwrap_or_default();
+                    // something changes after the export
+                    let (m, sc) = { let l = format!("after-export{}", rng.below(50)); mk_secret(&mut rng, &l) };
+                    let d = content_digest(&m, &sc).await;
+                    if let Ok(ch) = a.create_secret(m, sc, AccessOptions { folder: Some(f), ..Default::default() }).await { live.entry(f).or_default().insert(ch.id, d); }
+                    let way = special - 25;
+                    if way < 3 {
+                        // a copy beside the original (the identifier exists: it is rotated, the name changed)
+                        let before: std::collections::BTreeSet<VaultId> = live.keys().copied().collect();
+                        match a.import_folder_buffer(&buffer, new_key.clone(), false).await {
+                            Ok(fc) => { let id = *fc.folder.id(); cx.script.push(format!("import-copy of {f} -> {id}")); cx.rep.count("op:import-copy");
+                                if before.contains(&id) { cx.fail("c01-import-without-overwrite-replaced-an-existing-folder", &format!("importing a copy of {f} without overwrite returned the identifier of an existing folder")); }
+                                else { live.insert(id, at_export.clone()); extra_folders.push(id); } }
+                            Err(e) => { cx.script.push(format!("import-copy of {f} -> error {e}")); cx.rep.count("op:import-copy-error"); }
+                        }
+                    } else if way < 6 {
+                        // the folder is deleted, imported again from the buffer and compacted
+                        if a.delete_folder(&f).await.is_ok() {
+                            live.remove(&f);
+                            match a.import_folder_buffer(&buffer, new_key.clone(), false).await {
+                                Ok(fc) => { let id = *fc.folder.id(); live.insert(id, at_export.clone()); if id != f { extra_folders.retain(|x| x != &f); extra_folders.push(id); }
+                                    let _ = a.compact_folder(&id).await;
+                                    cx.script.push(format!("delete-import-compact {f} -> {id}")); cx.rep.count("op:delete-import-compact"); }
+                                Err(e) => { extra_folders.retain(|x| x != &f); cx.script.push(format!("delete-import {f} -> error {e}")); cx.rep.count("op:delete-import-error"); }
+                            }
+                        }
+                    } else if way < 9 {
+                        // the folder is forgotten (in memory only) and imported again from the older buffer
+                        if a.forget_folder(&f).await.unwrap_or(false) {
+                            match a.import_folder_buffer(&buffer, new_key.clone(), false).await {
+                                Ok(fc) => { let id = *fc.folder.id(); live.remove(&f); live.insert(id, at_export.clone()); if id != f { extra_folders.retain(|x| x != &f); extra_folders.push(id); }
+                                    cx.script.push(format!("forget-import {f} -> {id}")); cx.rep.count("op:forget-import"); }
+                                Err(e) => { cx.script.push(format!("forget-import {f} -> error {e}")); cx.rep.count("op:forget-import-error");
+                                    let _ = a.sign_out().await; match a.sign_in(&key).await { Ok(_) => { let _ = a.initialize_search_index().await; } Err(e) => { cx.fail("c01-sign-in-after-sign-out-fails", &e.to_string()); return Ok(()); } } }
+                            }
+                        }
+                    } else {
+                        // overwrite: the folder goes back to what was exported
+                        match a.import_folder_buffer(&buffer, new_key.clone(), true).await {
+                            Ok(fc) => { let id = *fc.folder.id(); live.insert(id, at_export.clone()); cx.script.push(format!("import-overwrite {f} -> {id}")); cx.rep.count("op:import-overwrite");
+                                if id != f { cx.fail("c01-import-with-overwrite-changed-the-identifier", "an import with overwrite gave the folder another identifier"); } }
+                            Err(e) => { cx.script.push(format!("import-overwrite {f} -> error {e}")); cx.rep.count("op:import-overwrite-error"); }
+                        }
+                    }
+                    special_done = true;
+                    reload_now = true;
+                }
+            }
+        }
         if special_done {
         } else if force_now || save_now {
             // save the log now, or force-merge the saved log (forced overwrite) if there is one
